@@ -17,18 +17,18 @@ import (
 
 // nilableCalls: library functions/methods documented to return nil for some well-typed input.
 var nilableCalls = map[string]string{
-	"(*go/types.Info).TypeOf":        "nil if the expression is not found",
-	"(*go/types.Info).ObjectOf":      "nil if the identifier is not found",
-	"(*go/types.Info).PkgNameOf":     "nil if the import spec is not found",
-	"(*go/types.Scope).Lookup":       "nil if the name is not declared",
-	"invoke go/types.Object.Pkg":     "nil for universe objects",
-	"(*go/types.object).Pkg":         "nil for universe objects",
-	"(*go/types.TypeName).Pkg":       "nil for universe objects",
-	"(*go/token.FileSet).File":       "nil for positions outside the set",
-	"(*flag.FlagSet).Lookup":         "nil if the flag is not defined",
-	"(*go/types.Signature).Recv":     "nil for functions",
-	"(*go/types.Func).Pkg":           "nil for universe functions",
-	"(*go/types.Signature).Params":   "never nil in go/types >= 1.x (kept out)",
+	"(*go/types.Info).TypeOf":      "nil if the expression is not found",
+	"(*go/types.Info).ObjectOf":    "nil if the identifier is not found",
+	"(*go/types.Info).PkgNameOf":   "nil if the import spec is not found",
+	"(*go/types.Scope).Lookup":     "nil if the name is not declared",
+	"invoke go/types.Object.Pkg":   "nil for universe objects",
+	"(*go/types.object).Pkg":       "nil for universe objects",
+	"(*go/types.TypeName).Pkg":     "nil for universe objects",
+	"(*go/token.FileSet).File":     "nil for positions outside the set",
+	"(*flag.FlagSet).Lookup":       "nil if the flag is not defined",
+	"(*go/types.Signature).Recv":   "nil for functions",
+	"(*go/types.Func).Pkg":         "nil for universe functions",
+	"(*go/types.Signature).Params": "never nil in go/types >= 1.x (kept out)",
 }
 
 // optionalASTFields: pointer/interface children of AST nodes that are nil in well-formed trees.
@@ -240,7 +240,7 @@ func (c *Ctx) paramNilSafe(fn *ssa.Function, idx int, depth int) bool {
 func (c *Ctx) nilGuarded(u ssa.Instruction, v ssa.Value) bool {
 	P := c.P
 	vd := P.Desc(v)
-	for _, l := range P.Expand(P.BlockGuards(u.Block())) {
+	for _, l := range P.Expand(P.Guards(u)) {
 		if nv := nilCheckedValue(l); nv != nil && !l.Pos && (nv == v || P.Desc(nv) == vd) {
 			return true
 		}
